@@ -118,3 +118,44 @@ theorem C13_cid_bytes_iff (data p : Bytes) (hp : p.length ≤ 2147483647) :
   ⟨castParse_payload_canonical data p, fun e => e ▸ castParse_cidBytes p hp⟩
 
 end Base64
+
+namespace Base64
+
+/-- whatever text `Parse` accepts for an archive decodes (multibase layer) to the CID bytes `Format` writes -/
+theorem C13_parse_payload_canonical (s p : Bytes) (h : parse s = .payload p) :
+    mbDecode s = .ok (cidBytes p) := by
+  unfold parse at h
+  split at h
+  · cases h
+  · split at h
+    · cases h
+    · split at h
+      · cases h
+      · cases h
+      · rename_i data hd
+        rw [hd, castParse_payload_canonical data p h]
+
+/-! RFC 4648 §10 test vectors: the model's encoders and decoders on concrete strings (tests, labelled as
+tests — the theorems above are the claims) -/
+private def a (s : String) : Bytes := Bytes.ofChars s.toList
+
+example : stdEncode (a "") = a "" := by decide
+example : stdEncode (a "f") = a "Zg==" := by decide
+example : stdEncode (a "fo") = a "Zm8=" := by decide
+example : stdEncode (a "foo") = a "Zm9v" := by decide
+example : stdEncode (a "foob") = a "Zm9vYg==" := by decide
+example : stdEncode (a "fooba") = a "Zm9vYmE=" := by decide
+example : stdEncode (a "foobar") = a "Zm9vYmFy" := by decide
+example : rawStdEncode (a "foob") = a "Zm9vYg" := by decide
+example : rawUrlEncode [0xfb, 0xff, 0xfe] = a "-__-" := by decide
+example : rawStdEncode [0xfb, 0xff, 0xfe] = a "+//+" := by decide
+example : stdDecode (a "Zm9v\nYg=\r=") = some (a "foob") := by decide
+example : stdDecode (a "Zm9vYg=") = none := by decide           -- incomplete padding
+example : stdDecode (a "Zm9vYg==Zg==") = none := by decide      -- data after padding
+example : rawStdDecode (a "Zm9vYg==") = none := by decide       -- `=` in an unpadded alphabet
+example : rawStdDecode (a "Zm9vYh") = some (a "foob") := by decide  -- trailing bits ignored (non-strict)
+example : rawStdDecode (a "Zm9vY") = none := by decide          -- one character left over
+example : joinDot (a "{}") (a "[1]") = a "e30.WzFd" := by decide
+example : splitDot (a "e30.WzFd") = (a "e30", a "WzFd") := by decide
+
+end Base64
